@@ -624,9 +624,27 @@ class MultiprocessingPoolExecutor(Executor):
         return submit_apply_async(self.pool.apply_async, fn, *args, **kwargs)
 
 
+def _call_capturing(fn, args, kwargs):
+    # ``multiprocessing.pool`` workers only hand back ``Exception``s: any
+    # other ``BaseException`` would end the worker and the result would never
+    # arrive (the scheduler would wait for it for ever)
+    try:
+        return True, fn(*args, **kwargs)
+    except BaseException as e:
+        return False, e
+
+
 def submit_apply_async(apply_async, fn, *args, **kwargs):
     fut = Future()
-    apply_async(fn, args, kwargs, fut.set_result, fut.set_exception)
+
+    def done(res):
+        ok, value = res
+        if ok:
+            fut.set_result(value)
+        else:
+            fut.set_exception(value)
+
+    apply_async(_call_capturing, (fn, args, kwargs), {}, done, fut.set_exception)
     return fut
 
 
